@@ -4,7 +4,7 @@ sys.path.insert(0,'/verif/lib')
 import mirsmt, miragg, mirblocks, mirflow, mirpaths, mirload, mirquery
 sid, checks = sys.argv[1], sys.argv[2]
 mut='/tmp/mutsrc'
-subprocess.check_call(['rsync','-a','--delete','--exclude','/target','--exclude','.git','/repo/',mut+'/'])
+subprocess.check_call(['rsync','-rlpc','--delete','--exclude','/target','--exclude','.git','/repo/',mut+'/'])
 subprocess.check_call(['git','apply','--unsafe-paths','--directory='+mut, f'/verif/seeded/{sid}/patch.diff'], cwd='/')
 mir=mirsmt.dump_mir(mut)
 ob=mirsmt.Obligations(); a=miragg.Agg(mir,mut,ob)
